@@ -236,6 +236,8 @@ def run_case(case):
         if not C.finite([a[1] for a in atoms], [f]):
             continue
         phs = [rb(w) for rb in rbs]
+        if not all(C.phys_ok(ph_) for ph_ in phs):
+            continue
         refs = [model.RefModel(b.spec, ph) for b, ph in zip(builts, phs)]
         if any(r.amplification() > 1e3 for r in refs):
             continue        # a chaotic SingleShooting recursion: round-off differences are amplified alike
